@@ -520,6 +520,9 @@ class Command:
                     self.curarg = curarg
                 if add:
                     self.arguments[curarg["name"]] = avalue
+                if "tag" not in curarg["type"]:
+                    # optional positional argument: the next one follows it
+                    self.nextargpos = pos + 1
                 break
 
             pos += 1
